@@ -397,7 +397,8 @@ def _same(c, model, impl, spec_ok):
         xs = [Fraction(x) for x in impl.split(' ')[1:]]
         return len(ms) == len(xs) and all(abs(m - x) <= TOL64 * (1 + abs(m)) for m, x in zip(ms, xs))
     if c.canon == 'refine' and model.startswith('ok ') and impl.startswith('ok '):
-        # the model also reports how much of the oracle is left; it must not have run out
+        # the model also reports how much of the oracle is left (it must not have run out) and whether the
+        # kernel's bound on the passes ended the loop (informative)
         parts = model.split(' ')
         return parts[1] == impl.split(' ')[1] and int(parts[2]) > 0
     if model == 'fuel' and impl == 'hang':
